@@ -31,6 +31,16 @@ MC_INV = ("INVARIANT ReadBackEqual\nINVARIANT DeviceSingleBreeze\nINVARIANT Clie
           "PROPERTY WriteIsUpd\nPROPERTY NoWriteWithoutChange\nPROPERTY ClearedByApply\n")
 
 
+def caps_pages(prof, five_level=False, rich=False, pages2=False):
+    """One 0xB5 page, or - as real units do - two: the first announces 'additional capabilities', the property settings sit on the second."""
+    if not pages2:
+        return [caps_body(prof, five_level, rich)]
+    one = caps_body(set(), five_level, rich)                       # modes (+ humidity / energy) only
+    two = caps_body(prof, five_level, False)
+    two = bytes([0xB5, two[1] - 1]) + two[2:-4]                     # the property records without the MODES record
+    return [one + bytes([1, 0]), two + bytes([0, 0])]
+
+
 def caps_body(prof, five_level=False, rich=False):
     recs = b""
     n = 0
@@ -45,12 +55,12 @@ def caps_body(prof, five_level=False, rich=False):
     return bytes([0xB5, n + 1]) + recs
 
 
-def make_device(prof, five_level=False, rich=False):
+def make_device(prof, five_level=False, rich=False, pages2=False):
     props = {}
     for pid in prof:
         props[pid] = bytes([1, 0]) if pid == PIECO else bytes([INIT.get(pid, 0)])
     extra = dict(energy=bytes([0xC1, 0x21, 0x01, 0x44, 0, 0, 0x12, 0x34, 0, 0, 0, 0, 0, 0, 0, 0x56, 0, 7, 0x89, 0]), humidity=bytes([0xC1, 0x21, 0x01, 0x45, 47, 0, 0, 0])) if rich else {}
-    d = acdev.ACModel(caps_pages=[caps_body(prof, five_level, rich)], props=props, **extra)
+    d = acdev.ACModel(caps_pages=caps_pages(prof, five_level, rich, pages2), props=props, **extra)
     d.strict = True
     return d
 
@@ -66,13 +76,30 @@ def observe(ac):
             "ud": int(ac.vertical_swing_angle), "clean": bool(ac.self_clean_active)}, sum(flags)
 
 
-def replay(hist, prof, *, five_level=False, mid_apply=False, rich=False, lost_state=False):
+def replay(hist, prof, *, five_level=False, mid_apply=False, rich=False, lost_state=False, pages2=False, lost_ack=False):
     from msmart.device import AirConditioner as AC
     AX = AC
     vloop.install_clock()
     loop = vloop.new_loop()
     net = vloop.Net(loop)
-    dev = make_device(prof, five_level, rich)
+    dev = make_device(prof, five_level, rich, pages2)
+    if lost_ack:
+        # the acknowledgement of every second property write (0xB0) is lost although the unit took the write: that apply() has still written the
+        # changed properties exactly once, and a later apply() without a new change writes nothing
+        orig_handle0 = dev.handle
+        cnt0 = {"n": 0}
+
+        def handle0(f):
+            out = orig_handle0(f)
+            if len(f) > 10 and f[10] == 0xB0 and f[9] == 2:
+                key = bytes(f)
+                if key not in cnt0:
+                    cnt0["n"] += 1
+                    cnt0[key] = cnt0["n"] % 2 == 1
+                if cnt0[key]:
+                    return []
+            return out
+        dev.handle = handle0
     if lost_state:
         # the answer to every second state command (0x40) of an apply() is lost (the unit executes it and stays reachable); the property protocol of
         # that apply() is the same as with a prompt unit: the write of what changed still goes out, once
@@ -101,9 +128,11 @@ def replay(hist, prof, *, five_level=False, mid_apply=False, rich=False, lost_st
         for f in dev.rx_frames[mark:]:
             c = acdev.parse_command(f)
             if c["ok"] and c["body"][:1] == b"\xb0":
-                b0.append(B(f))
+                if B(f) not in b0:                     # byte-identical frames are retransmissions of ONE command by the transport
+                    b0.append(B(f))
             elif c["ok"] and c["body"][:1] == b"\xb1":
-                b1.append(B(f))
+                if B(f) not in b1:
+                    b1.append(B(f))
         attrs, nb = observe(ac)
         events.append({"a": a, "v": int(v), "b0": b0, "b1": b1, "attrs": attrs, "nbreeze": nb, "regs": regs_of(dev), "raised": raised,
                        "sup": {"away": bool(ac.supports_breeze_away), "mild": bool(ac.supports_breeze_mild), "less": bool(ac.supports_breezeless),
@@ -176,15 +205,19 @@ def replay(hist, prof, *, five_level=False, mid_apply=False, rich=False, lost_st
                     await ac.get_capabilities()
                 elif a == "selfclean":
                     await ac.start_self_clean()
+                elif a == "cleandone":
+                    dev.props[PCLEAN] = b"\x00"                 # the unit has finished its self-clean cycle
             except Exception as ex:  # noqa: BLE001 - code under test
                 raised = type(ex).__name__
             b0, b1 = [], []
             for f in dev.rx_frames[mark:]:
                 c = acdev.parse_command(f)
                 if c["ok"] and c["body"][:1] == b"\xb0":
-                    b0.append(B(f))
+                    if B(f) not in b0:
+                        b0.append(B(f))
                 elif c["ok"] and c["body"][:1] == b"\xb1":
-                    b1.append(B(f))
+                    if B(f) not in b1:
+                        b1.append(B(f))
             attrs, nb = observe(ac)
             events.append({"a": a, "v": int(v), "b0": b0, "b1": b1, "attrs": attrs, "nbreeze": nb, "regs": regs_of(dev), "raised": raised,
                            "sup": {"away": bool(ac.supports_breeze_away), "mild": bool(ac.supports_breeze_mild), "less": bool(ac.supports_breezeless),
@@ -220,6 +253,8 @@ def directed(prof):
         H(("caps", 0), ("away", 1), ("less", 1), ("apply", 0), ("refresh", 0), ("mild", 1), ("apply", 0), ("refresh", 0)),
         H(("caps", 0), ("ieco", 1), ("selfclean", 0), ("apply", 0), ("refresh", 0), ("apply", 0)),
         H(("caps", 0), ("refresh", 0), ("apply", 0), ("refresh", 0), ("apply", 0)),
+        *([H(("caps", 0), ("selfclean", 0), ("refresh", 0), ("cleandone", 0), ("refresh", 0), ("refresh", 0)),
+           H(("caps", 0), ("selfclean", 0), ("cleandone", 0), ("apply", 0), ("refresh", 0), ("selfclean", 0), ("refresh", 0))] if PCLEAN in prof else []),
         H(("away", 1), ("caps", 0), ("apply", 0), ("refresh", 0), ("less", 1), ("apply", 0), ("refresh", 0)),
         H(("caps", 0), ("rate", 50), ("lr", 25), ("ud", 100), ("beep", 1), ("apply", 0), ("apply", 0), ("refresh", 0), ("rate", 100), ("apply", 0), ("refresh", 0)),
     ]
@@ -272,7 +307,7 @@ def judge(ctx, runs, canaries=True):
             at = int(clause.split(" @event ")[1])
             cl = clause.split(" @event ")[0]
             ctx.violation(f"{pname}: history {[(s['a'], s['v']) for s in r['hist'][:at]]}"[:300], cl,
-                          {"profile": pname, "five": r["five"], "mid_apply": r.get("mid", False), "rich": r.get("rich", False), "lost": r.get("lost", False), "hist": r["hist"], "clause": cl,
+                          {"profile": pname, "five": r["five"], "mid_apply": r.get("mid", False), "rich": r.get("rich", False), "lost": r.get("lost", False), "pages2": r.get("pages2", False), "lost_ack": r.get("lost_ack", False), "hist": r["hist"], "clause": cl,
                            "breeze_legacy_both": cl.startswith("breeze mode differs (refresh)") and pname == "LegacyBoth"})
 
 
@@ -297,13 +332,22 @@ def run(ctx: Ctx) -> int:
         cap2 = ctx.pick(120, 8000)
         if len(hs2) > cap2:
             hs2 = ctx.rng.sample(hs2, cap2)
+        HH = lambda *xs: [{"a": a, "v": v} for a, v in xs]
+        for h in (HH(("caps", 0), ("ieco", 1), ("rate", 50), ("apply", 0), ("apply", 0), ("refresh", 0), ("apply", 0)),
+                  HH(("caps", 0), ("lr", 25), ("apply", 0), ("ud", 50), ("apply", 0), ("apply", 0), ("refresh", 0)),
+                  HH(("ud", 100), ("apply", 0), ("beep", 1), ("apply", 0), ("caps", 0), ("refresh", 0), ("rate", 75), ("apply", 0), ("apply", 0))):
+            # the acknowledgement of the first (third, ...) property write is lost
+            runs.append({"profile": pname, "five": False, "mid": False, "rich": False, "lost": False, "pages2": False, "lost_ack": True, "hist": h,
+                         "events": replay(h, prof, lost_ack=True)})
         for k, h in enumerate(directed(prof) + hs3 + hs + hs2):
             five = (k % 2 == 1)
             mid = (k % 3 == 2)
             rich = (k % 4 == 1)
             lost = (k % 5 == 3) and not mid
-            runs.append({"profile": pname, "five": five, "mid": mid, "rich": rich, "lost": lost, "hist": h,
-                         "events": replay(h, prof, five_level=five, mid_apply=mid, rich=rich, lost_state=lost)})
+            pages2 = (k % 3 == 1)
+            lost_ack = (k % 7 == 4) and not mid and not lost and not any(st["a"] in ("away", "mild", "less", "selfclean") for st in h)     # (what the unit makes of a breeze / self-clean write is only known from its acknowledgement)
+            runs.append({"profile": pname, "five": five, "mid": mid, "rich": rich, "lost": lost, "pages2": pages2, "lost_ack": lost_ack, "hist": h,
+                         "events": replay(h, prof, five_level=five, mid_apply=mid, rich=rich, lost_state=lost, pages2=pages2, lost_ack=lost_ack)})
             ctx.count_distinct((pname, five, tuple((s["a"], s["v"]) for s in h)))
     ctx.extra["tlc_generated_histories"] = ngen
     judge(ctx, runs)
@@ -325,7 +369,8 @@ def replay_cmd(ctx, path):
     c = json.load(open(path))["case"]
     prof = PROFILES[c["profile"]]
     runs = [{"profile": c["profile"], "five": c.get("five", False), "mid": c.get("mid_apply", False), "rich": c.get("rich", False), "lost": c.get("lost", False), "hist": c["hist"],
-             "events": replay(c["hist"], prof, five_level=c.get("five", False), mid_apply=c.get("mid_apply", False), rich=c.get("rich", False), lost_state=c.get("lost", False))}]
+             "events": replay(c["hist"], prof, five_level=c.get("five", False), mid_apply=c.get("mid_apply", False), rich=c.get("rich", False), lost_state=c.get("lost", False),
+                               pages2=c.get("pages2", False), lost_ack=c.get("lost_ack", False))}]
     judge(ctx, runs, canaries=False)
     return ctx.finish(rule="replay of one recorded history")
 
